@@ -34,6 +34,12 @@ fn edge<F: PrimeField>(rng: &mut ChaChaRng, k: usize) -> F {
         8 => -two64,
         9 => -F::from(2u64),
         10 => F::from(rng.gen::<u64>()),
+        _ if (k / 12) % 4 == 3 => {
+            // upper limbs that sum to exactly 2^64 (l3 small, l2 = 2^64 - l3), random lower limbs
+            let l3: u64 = rng.gen_range(1..8);
+            let l2: u64 = (0u64).wrapping_sub(l3);
+            ((F::from(l3) * two64 + F::from(l2)) * two64 + F::from(rng.gen::<u64>())) * two64 + F::from(rng.gen::<u64>())
+        }
         _ if (k / 12) % 2 == 1 => {
             // limb structure: each 64-bit limb zero, small, all-ones or random
             let mut v = F::zero();
